@@ -29,9 +29,12 @@ type Obs struct {
 	Stderr     string      `json:"stderr,omitempty"`
 	HarnessErr string      `json:"harnessErr,omitempty"`
 	Init       any         `json:"init,omitempty"`
-	Inits      []string    `json:"inits,omitempty"`   // handshake histories: the attempts answered with bad content
-	Sub        int         `json:"sub,omitempty"`     // decode: documents tried (after a crash: the index of the one being sent)
-	Decoded    []string    `json:"decoded,omitempty"` // decode: per document, "returned" (a value or an error) / "pending"
+	Inits      []string    `json:"inits,omitempty"`    // handshake histories: the attempts answered with bad content
+	Sub        int         `json:"sub,omitempty"`      // decode: documents tried (after a crash: the index of the one being sent)
+	Decoded    []string    `json:"decoded,omitempty"`  // decode: per document, "returned" (a value or an error) / "pending"
+	ReOK       int         `json:"reOk,omitempty"`     // re-entrant handlers: their own calls that were answered
+	ReFailed   int         `json:"reFailed,omitempty"` // … that were not
+	ReFirst    any         `json:"reFirst,omitempty"`  // the first failure
 	Call       any         `json:"call,omitempty"`
 	Calls      []any       `json:"calls,omitempty"`
 	Notes      []int       `json:"notes"`
@@ -75,6 +78,9 @@ type recorder struct {
 	sentinel chan struct{}
 	once     sync.Once
 	arrived  map[int]chan int // call index -> the id the peer saw
+	// re-entrant handlers: their own calls
+	reOK, reFailed int
+	reFirst        any
 }
 
 func newRecorder() *recorder {
@@ -99,6 +105,51 @@ func (r *recorder) note(n *mcp.JSONRPCNotification) error {
 	return nil
 }
 
+// handler: the notification handler of the case's kind — "" / "fast" records; "slow" works a few milliseconds first;
+// "reentrant" issues a call on the SAME client and waits for its answer before it returns (a handler that refreshes the tool
+// list on notifications/tools/list_changed)
+func (r *recorder) handler(kind string, client func() mcp.Connector) mcp.NotificationHandler {
+	switch kind {
+	case "slow":
+		return func(n *mcp.JSONRPCNotification) error {
+			time.Sleep(2 * time.Millisecond) // the handler's work (the scenario, not synchronisation)
+			return r.note(n)
+		}
+	case "reentrant":
+		return func(n *mcp.JSONRPCNotification) error {
+			ctx, cancel := context.WithTimeout(context.Background(), 6*time.Second)
+			cr := doList(ctx, client(), fmt.Sprint("re", kOf(n, "k")))
+			cancel()
+			r.mu.Lock()
+			if m, ok := cr.obs.(map[string]any); ok && m["ok"] == fmt.Sprint("re", kOf(n, "k")) {
+				r.reOK++
+			} else {
+				r.reFailed++
+				if r.reFirst == nil {
+					r.reFirst = cr.obs
+				}
+			}
+			r.mu.Unlock()
+			return r.note(n)
+		}
+	}
+	return r.note
+}
+
+// awaitNotes waits until n handler invocations have completed (stdio runs every handler in its own goroutine)
+func (r *recorder) awaitNotes(n int, ceiling time.Duration) {
+	deadline := time.Now().Add(ceiling)
+	for time.Now().Before(deadline) {
+		r.mu.Lock()
+		got := len(r.notes)
+		r.mu.Unlock()
+		if got >= n {
+			return
+		}
+		time.Sleep(5 * time.Millisecond)
+	}
+}
+
 func (r *recorder) arrivedCh(i int) chan int {
 	r.mu.Lock()
 	defer r.mu.Unlock()
@@ -111,6 +162,12 @@ func (r *recorder) arrivedCh(i int) chan int {
 func (r *recorder) onArrived(n *mcp.JSONRPCNotification) error {
 	r.arrivedCh(kOf(n, "k")) <- kOf(n, "id")
 	return nil
+}
+
+func (r *recorder) fill(obs *Obs) {
+	r.mu.Lock()
+	obs.ReOK, obs.ReFailed, obs.ReFirst = r.reOK, r.reFailed, r.reFirst
+	r.mu.Unlock()
 }
 
 func (r *recorder) take() []int {
@@ -330,7 +387,7 @@ func (w *worker) runStreamable(cs *Case, obs *Obs) {
 	}
 	rec := newRecorder()
 	for _, m := range cs.Handlers {
-		cl.RegisterNotificationHandler(m, rec.note)
+		cl.RegisterNotificationHandler(m, rec.handler(cs.HandlerKind, func() mcp.Connector { return cl }))
 	}
 	badAttempts(cs, obs, cl)
 	ctx, cancel := context.WithTimeout(context.Background(), 5*time.Second)
@@ -376,7 +433,7 @@ func (w *worker) runStreamable(cs *Case, obs *Obs) {
 			obs.Sentinel = true
 		case <-st.getClosed:
 			obs.GetClosed = true
-		case <-time.After(3 * time.Second):
+		case <-time.After(3*time.Second + time.Duration(cs.SlowMs)*time.Millisecond):
 		}
 		obs.PendingReturned = true
 		obs.LogWindow, obs.CPUWindowMs, obs.WindowMs = quietWindow(lg, 60*time.Millisecond)
@@ -387,6 +444,7 @@ func (w *worker) runStreamable(cs *Case, obs *Obs) {
 	cancel()
 	obs.Next, obs.NextMs = r.obs, r.ms
 	obs.Notes = rec.take()
+	rec.fill(obs)
 	st.mu.Lock()
 	obs.Answers = append(obs.Answers, st.answers...)
 	st.mu.Unlock()
@@ -578,7 +636,7 @@ func (w *worker) runStdio(cs *Case, obs *Obs) {
 	defer func() { os.Remove(path); os.Remove(path + ".log") }()
 	rec := newRecorder()
 	for _, m := range cs.Handlers {
-		sc.RegisterNotificationHandler(m, rec.note)
+		sc.RegisterNotificationHandler(m, rec.handler(cs.HandlerKind, func() mcp.Connector { return sc }))
 	}
 	sc.RegisterNotificationHandler("verif/arrived", rec.onArrived)
 	badAttempts(cs, obs, sc)
@@ -642,8 +700,12 @@ func (w *worker) runStdio(cs *Case, obs *Obs) {
 	cancel()
 	obs.Next, obs.NextMs = r.obs, r.ms
 	w.collect(obs, results, cancels)
+	if cs.Expect > 0 {
+		rec.awaitNotes(cs.Expect, 8*time.Second) // every handler runs in its own goroutine: let the burst's handlers finish
+	}
 	obs.LogWindow, obs.CPUWindowMs, obs.WindowMs = quietWindow(lg, 200*time.Millisecond)
 	obs.Notes = rec.take()
+	rec.fill(obs)
 	sort.Ints(obs.Notes)
 	if b, err := os.ReadFile(path + ".log"); err == nil {
 		s := bufio.NewScanner(strings.NewReader(string(b)))
